@@ -217,7 +217,9 @@ func VerifyYouVersionState(prev, curr *types.Header) (err error) {
 }
 
 func (bc *BlockChain) VerifyYouVersionState(chain types.Blocks) (int, error) {
-	firstParent := bc.GetHeaderByNumber(chain[0].NumberU64() - 1)
+	// the parent the first block names, not whatever block is canonical at that height:
+	// a batch may continue a known branch that is not (or no longer) the canonical one
+	firstParent := bc.GetHeader(chain[0].ParentHash(), chain[0].NumberU64()-1)
 	if firstParent == nil {
 		return 0, consensus.ErrUnknownAncestor
 	}
@@ -236,7 +238,7 @@ func (bc *BlockChain) VerifyYouVersionState(chain types.Blocks) (int, error) {
 }
 
 func (bc *BlockChain) VerifyYouVersionState2(chain []*types.Header) (int, error) {
-	firstParent := bc.GetHeaderByNumber(chain[0].Number.Uint64() - 1)
+	firstParent := bc.GetHeader(chain[0].ParentHash, chain[0].Number.Uint64()-1)
 	if firstParent == nil {
 		return 0, consensus.ErrUnknownAncestor
 	}
